@@ -43,6 +43,17 @@ func randPayload(r *Rng, o genOpts) string {
 		sizes := []int{63, 64, 65, 127, 128, 129}
 		b.WriteString(strings.Repeat("k", sizes[r.Intn(len(sizes))]))
 	}
+	if r.Chance(1, 70) {
+		// a long payload with special pieces scattered through it (thresholds that only
+		// sizes beyond a few hundred bytes reach: growth steps, scratch buffers, chunked loops)
+		for i, m := 0, 40+r.Intn(400); i < m; i++ {
+			if r.Chance(1, 6) {
+				b.WriteString(payloadValid[r.Intn(len(payloadValid))])
+			} else {
+				b.WriteString("wordy ")
+			}
+		}
+	}
 	return b.String()
 }
 
@@ -142,6 +153,30 @@ func randD(r *Rng, depth int, o genOpts) *D {
 		return out
 	}
 	c := r.Intn(100)
+	if r.Chance(1, 45) {
+		// a large container (sort paths, growth steps and per-element state only show beyond a handful of elements)
+		n := 20 + r.Intn(45)
+		switch r.Intn(3) {
+		case 0:
+			d := &D{K: "slice"}
+			for i := 0; i < n; i++ {
+				d.Sub = append(d.Sub, randLeaf(r, o))
+			}
+			return d
+		case 1:
+			d := &D{K: "map"}
+			for i := 0; i < n; i++ {
+				d.Sub = append(d.Sub, dS("string", "k"+strconv.Itoa((i*37)%n)+[]string{"", "\n", startM}[i%3]), randLeaf(r, o))
+			}
+			return d
+		default:
+			d := &D{K: "imap"}
+			for i := 0; i < n; i++ {
+				d.Sub = append(d.Sub, dN("int", int64((i*53)%n)*3), randLeaf(r, o))
+			}
+			return d
+		}
+	}
 	switch {
 	case c < 16:
 		return dSub("slice", subs(3)...)
@@ -633,6 +668,9 @@ func randCall(r *Rng, o genOpts) *Call {
 		}
 	default:
 		n := 1 + r.Intn(3)
+		if r.Chance(1, 60) {
+			n = 10 + r.Intn(20) // many directives in one format
+		}
 		for i := 0; i < n; i++ {
 			c.Dirs = append(c.Dirs, randDir(r, o, r.Chance(1, 6)))
 			c.Args = append(c.Args, randD(r, o.maxDepth, o))
